@@ -8,7 +8,8 @@ import json, os, shutil, subprocess, sys, tempfile, time
 HERE = os.path.dirname(os.path.dirname(os.path.abspath(__file__)))
 pid = sys.argv[1]
 extra = sys.argv[2:]
-src = f"/tmp/seed/{pid}/seeded"
+src = os.environ.get("SEED_ROOT", "/tmp/seed") + f"/{pid}/seeded"
+offset = int(os.environ.get("SEED_OFFSET", "0"))  # round 2 deliverables are stored as <ID>-3, <ID>-4
 
 
 def run_demo(demo, tree):
@@ -26,7 +27,7 @@ for k in (1, 2, 3):
     if not os.path.exists(diff):
         continue
     d = tempfile.mkdtemp(prefix="seedchk-")
-    meta = {"property": pid, "change": k, "checked_at_repo_commit": subprocess.run(["git", "-C", "/repo", "rev-parse", "--short", "HEAD"], capture_output=True, text=True).stdout.strip()}
+    meta = {"property": pid, "change": k + offset, "checked_at_repo_commit": subprocess.run(["git", "-C", "/repo", "rev-parse", "--short", "HEAD"], capture_output=True, text=True).stdout.strip()}
     try:
         subprocess.run(["git", "-C", "/repo", "worktree", "add", "-q", "--detach", d + "/r"], check=True, capture_output=True)
         tree = d + "/r"
@@ -59,7 +60,7 @@ for k in (1, 2, 3):
         except OSError:
             pass
         if meta["confirmed"]:
-            dest = os.path.join(HERE, "seeded", f"{pid}-{k}")
+            dest = os.path.join(HERE, "seeded", f"{pid}-{k + offset}")
             os.makedirs(dest, exist_ok=True)
             shutil.copy(diff, dest + "/patch.diff")
             shutil.copy(demo_src, dest + "/demo.py")
